@@ -167,12 +167,25 @@ func x13SelfSigned() (certPEM, keyPEM string) {
 var (
 	x13EnvOnce sync.Once
 	x13TheEnv  *x13Env
+	x13EnvErr  string
 )
 
-// x13GetEnv builds the environment once per test process.
-func x13GetEnv(tmp string) *x13Env {
-	x13EnvOnce.Do(func() { x13TheEnv = x13NewEnv(tmp) })
-	return x13TheEnv
+// x13GetEnv builds the environment once per test process.  A failure to build it (port
+// collision of the embedded etcd with a parallel shard, ...) is the harness' problem and
+// makes the run inconclusive, never a violation.
+func x13GetEnv(tmp string) (*x13Env, string) {
+	x13EnvOnce.Do(func() {
+		defer func() {
+			if e := recover(); e != nil {
+				x13EnvErr = fmt.Sprint(e)
+			}
+		}()
+		x13TheEnv = x13NewEnv(tmp)
+	})
+	if x13EnvErr != "" {
+		return nil, x13EnvErr
+	}
+	return x13TheEnv, ""
 }
 
 func x13NewEnv(tmp string) *x13Env {
